@@ -177,6 +177,13 @@ func (e *Env) evalIdent(name string) V {
 	if c, ok := e.cells[name]; ok {
 		return x.loadPlace(e.cur, x.placeOf(c))
 	}
+	if name == "ret" && len(e.results) > 0 {
+		// ret: the function's results, also when a parameter is called `result`
+		if len(e.results) == 1 {
+			return e.results[0]
+		}
+		return V{Tup: e.results}
+	}
 	switch name {
 	case "true":
 		return V{T: boolT, S: "true"}
